@@ -616,7 +616,7 @@ func init() {
 		ID: "C02",
 		NumBatches: func(tier string, seed int64) int {
 			if tier == "thorough" {
-				return 4096
+				return 16384
 			}
 			return 512
 		},
